@@ -41,6 +41,9 @@ def explore(col, V, body, features, make_replay, label, timeout_ms=30000, kind='
         return
     for p in paths:
         if p.exc is not None:
+            if isinstance(p.exc, (symx.Inconclusive, symx.PathLimit)):
+                col.inconclusive.append({'label': label, 'why': repr(p.exc)})
+                continue
             if isinstance(p.exc, sx.Unmodelled):
                 col.unmodelled.append({'label': label, 'why': str(p.exc)})
                 symx.STATS.unmodelled += 1
